@@ -178,7 +178,7 @@ func StackSig(st string) string {
 	for _, ln := range strings.Split(st, "\n") {
 		ln = strings.TrimSpace(ln)
 		if (strings.HasPrefix(ln, "github.com/xelaj/mtproto/") || strings.HasPrefix(ln, "github.com/xelaj/mtproto.")) && !strings.Contains(ln, "/zverif/") {
-			if i := strings.Index(ln, "("); i > 0 {
+			if i := strings.LastIndex(ln, "("); i > 0 {
 				ln = ln[:i]
 			}
 			ln = strings.TrimPrefix(strings.TrimPrefix(ln, "github.com/xelaj/mtproto/"), "github.com/xelaj/mtproto.")
